@@ -516,89 +516,122 @@ def pool_inventory(ctx, report, rule, facts, config, crossing_only=False):
 def build_wiring(ctx, report, rule, facts, config):
     """The built dispatcher holds exactly the builder's stage list and
     thread-local list."""
+    from . import semq as Q
     prog = ctx.program(facts)
     par = ctx.parallel(config)
     b = facts.one(A.SB + "::build")
     report.touched(b, config)
-    bt = prog.bt(b)
-    report.ob(rule, "StagesBuilder::build", bt.local(0) == ("field", ("param", 1), "stages", A.SB),
-              "returns %s (expected self.stages)" % (bt.local(0),), site=b.loc(), config=config)
-    builds = [("build", "new_dispatcher")] + ([("build_async", "new_async")] if par else [])
-    for name, ctor in builds:
+    ok = _build_returns_stages(ctx, facts)
+    report.ob(rule, "StagesBuilder::build", ok, "returns self.stages" if ok else "StagesBuilder::build does not return self.stages on every way", site=b.loc(), config=config)
+    sbb = b
+    ctp = facts.maybe(A.DB + "::create_thread_pool")
+    keep = [sbb.key] + ([ctp.key] if ctp is not None else [])
+
+    def strip(ev, t):
+        return Q.strip(ev, t)
+
+    def is_stages(ev, t, base):
+        t = strip(ev, t)
+        return Q.is_call(ev, t, "build") and Q.callee_of(ev, t).key == sbb.key and strip(ev, t[2][0]) == ("field", base, "stages_builder", A.DB)
+
+    def disp_parts(ev, r):
+        """(stages, thread_local, thread_pool) of a Dispatcher record, looking through the SendDispatcher inside."""
+        fl = Q.record(ev, r, A.DISP + "::Dispatcher")
+        if fl is None:
+            return None
+        il = Q.record(ev, fl.get("inner"), A.SD + "::SendDispatcher")
+        if il is None:
+            return None
+        return il.get("stages"), fl.get("thread_local"), il.get("thread_pool")
+
+    def async_parts(ev, r):
+        fl = Q.record(ev, r, A.AD + "::AsyncDispatcher")
+        if fl is None:
+            return None
+        d = strip(ev, fl.get("data"))
+        if not (isinstance(d, tuple) and d[0] == "agg" and d[2] == A.AD_DATA + "::Inner" and d[3]):
+            return None
+        il = Q.record(ev, d[3][0], A.AD_INNER + "::Inner")
+        if il is None:
+            return None
+        return il.get("stages"), fl.get("thread_local"), fl.get("thread_pool"), il.get("world")
+
+    builds = [("build", disp_parts)] + ([("build_async", async_parts)] if par else [])
+    for name, parts in builds:
         b = facts.one(A.DB + "::" + name)
         report.touched(b, config)
-        bt = prog.bt(b)
-        calls = [(bb, Callee(t["func"])) for bb, t in b.normal_calls()]
-        cs = [(bb, c) for bb, c in calls if c.name == ctor and c.local]
-        ok = len(cs) == 1
-        detail = "%d call(s) of %s" % (len(cs), ctor)
-        if ok:
-            args = bt.call_args(cs[0][0])
-            off = 1 if ctor == "new_async" else 0
-            st = args[off]
-            tl = args[off + 1]
-            ok_st = (isinstance(st, tuple) and st[0] == "call" and bt.callee(st[1]).name == "build" and bt.callee(st[1]).self_head == A.SB
-                     and st[2] == (("field", ("param", 1), "stages_builder", A.DB),))
-            ok_tl = tl == ("field", ("param", 1), "thread_local", A.DB)
-            ok = ok_st and ok_tl
-            detail = "stages = %s, thread_local = %s" % ("self.stages_builder.build()" if ok_st else st, "self.thread_local" if ok_tl else tl)
-            if par:
-                tp = args[off + 2]
-                ok_tp = tp == ("field", ("param", 1), "thread_pool", A.DB)
-                ok = ok and ok_tp
-                detail += ", thread_pool = %s" % ("self.thread_pool" if ok_tp else (tp,))
-        report.ob(rule, "DispatcherBuilder::%s" % name, ok, detail, site=b.loc(), config=config)
+        ev, ends = Q.sem(ctx, facts, b, opaque=keep)
+        rets = Q.returns(ends)
+        pr = [] if rets else ["no way through returns"]
+        for e in rets:
+            got = parts(ev, e.ret)
+            if got is None:
+                pr.append("the result is not a dispatcher assembled in sight")
+                continue
+            if not is_stages(ev, got[0], ("param", 1)):
+                pr.append("the stages are not self.stages_builder.build()")
+            if strip(ev, got[1]) != ("field", ("param", 1), "thread_local", A.DB):
+                pr.append("the thread-local systems are not self.thread_local")
+            if par and strip(ev, got[2]) != ("field", ("param", 1), "thread_pool", A.DB):
+                pr.append("the pool is not self.thread_pool")
+            if name == "build_async" and strip(ev, got[3]) != ("param", 2):
+                pr.append("the world is not the one handed in")
+        report.ob(rule, "DispatcherBuilder::%s" % name, not pr, "stages = self.stages_builder.build(), thread_local = self.thread_local%s" % (", thread_pool = self.thread_pool" if par else "")
+                  if not pr else "; ".join(sorted(set(pr))), site=b.loc(), config=config)
     # constructors wire parameters to same-named fields
     nd = facts.one(A.C + "::dispatch::dispatcher::new_dispatcher")
     report.touched(nd, config)
-    bt = prog.bt(nd)
-    ret = bt.local(0)
-    ok = False
-    detail = str(ret)[:200]
-    if ret[0] == "agg" and ret[2] == A.DISP + "::Dispatcher":
-        fl = dict(zip(ret[4], ret[3]))
-        inner = fl.get("inner")
-        if inner and inner[0] == "agg" and inner[2] == A.SD + "::SendDispatcher":
-            il = dict(zip(inner[4], inner[3]))
-            ok = il.get("stages") == ("param", 1) and fl.get("thread_local") == ("param", 2) and (not par or il.get("thread_pool") == ("param", 3))
-            detail = "Dispatcher { inner: SendDispatcher { stages: %s, .. }, thread_local: %s }" % (il.get("stages"), fl.get("thread_local"))
+    ev, ends = Q.sem(ctx, facts, nd)
+    rets = Q.returns(ends)
+    ok = bool(rets)
+    detail = "Dispatcher { inner: SendDispatcher { stages, .. }, thread_local }"
+    for e in rets:
+        got = disp_parts(ev, e.ret)
+        if got is None or not (got[0] == ("param", 1) and got[1] == ("param", 2) and (not par or got[2] == ("param", 3))):
+            ok = False
+            detail = "new_dispatcher crosses its arguments: %s" % (got,)
     report.ob(rule, "new_dispatcher", ok, detail, site=nd.loc(), config=config)
     if par:
         na = facts.one(A.C + "::dispatch::async_dispatcher::new_async")
         report.touched(na, config)
-        bt = prog.bt(na)
-        ret = bt.local(0)
-        ok = False
-        detail = str(ret)[:200]
-        if ret[0] == "agg" and ret[2] == A.AD + "::AsyncDispatcher":
-            fl = dict(zip(ret[4], ret[3]))
-            d = fl.get("data")
-            if d and d[0] == "agg" and d[2] == A.AD_DATA + "::Inner" and d[3] and d[3][0][0] == "agg" and d[3][0][2] == A.AD_INNER + "::Inner":
-                il = dict(zip(d[3][0][4], d[3][0][3]))
-                ok = il.get("stages") == ("param", 2) and il.get("world") == ("param", 1) and fl.get("thread_local") == ("param", 3) and fl.get("thread_pool") == ("param", 4)
-                detail = "AsyncDispatcher { data: Inner { world: %s, stages: %s }, thread_local: %s, thread_pool: %s }" % (
-                    il.get("world"), il.get("stages"), fl.get("thread_local"), fl.get("thread_pool"))
+        ev, ends = Q.sem(ctx, facts, na)
+        rets = Q.returns(ends)
+        ok = bool(rets)
+        detail = "AsyncDispatcher { data: Inner { world, stages }, thread_local, thread_pool }"
+        for e in rets:
+            got = async_parts(ev, e.ret)
+            if got is None or not (got[0] == ("param", 2) and got[3] == ("param", 1) and got[1] == ("param", 3) and got[2] == ("param", 4)):
+                ok = False
+                detail = "new_async crosses its arguments: %s" % (got,)
         report.ob(rule, "new_async", ok, detail, site=na.loc(), config=config)
     # add_thread_local: exactly one push of Box::new(system) onto self.thread_local
     b = facts.one(A.DB + "::add_thread_local")
     report.touched(b, config)
-    bt = prog.bt(b)
-    pushes = []
-    for bb, t in b.normal_calls():
-        c = Callee(t["func"])
-        if c.name in SHAPE_MUTATORS and not c.local:
-            args = bt.call_args(bb)
-            f_, i_, base = table_access(b, args[0])
-            if crate_fields(f_) == [(A.DB, "thread_local")]:
-                pushes.append((bb, c, args))
-    ok = len(pushes) == 1 and pushes[0][1].name == "push" and bt.cfg.count(lambda x: x == pushes[0][0]) == (1, 1)
-    if ok:
-        v = pushes[0][2][1]
+    ev, ends = Q.sem(ctx, facts, b)
+    rets = Q.returns(ends)
+    ok = bool(rets)
+    seen = []
+    for e in rets:
+        pushes = []
+        for x in e.path.events:
+            if x[0] == "loop":
+                if Q.loop_contains_call(x[1], lambda c: c.name in SHAPE_MUTATORS and not c.local):
+                    pushes.append(("loop", None))
+            elif x[0] == "call" and x[2].name in SHAPE_MUTATORS and not x[2].local and x[3]:
+                f_, i_, base = Q.table_access(ev, x[3][0])
+                if Q.crate_fields(f_) == [(A.DB, "thread_local")]:
+                    pushes.append((x[2].name, x[3]))
+        seen.append([p_[0] for p_ in pushes])
+        if not (len(pushes) == 1 and pushes[0][0] == "push"):
+            ok = False
+            continue
+        v = pushes[0][1][1]
         while v[0] == "cast":
             v = v[2]
-        ok = v[0] == "call" and bt.callee(v[1]).name == "new" and v[2] == (("param", 2),)
+        if not (Q.is_call(ev, v, "new") and "Box" in (Q.callee_of(ev, v).path or "") and v[2] == (("param", 2),)):
+            ok = False
     report.ob(rule, "add_thread_local", ok, "one `push(Box::new(system))` onto self.thread_local on every path" if ok else
-              "thread-local registration is not a single append of the boxed system: %s" % [(c.name) for _, c, _ in pushes], site=b.loc(), config=config)
+              "thread-local registration is not a single append of the boxed system: %s" % seen, site=b.loc(), config=config)
     # nobody else changes the thread-local lists
     n = 0
     for bd in sorted(facts.bodies.values(), key=lambda b: b.key):
